@@ -48,7 +48,7 @@ def run(ctx) -> None:
     rows = extract.catalogue_rows()
     codes = [f"{r['prefix']}{r['code']}" for r in rows]
     res.rule = (
-        "one case per (selection, file set): selections = a random partition of the catalogue into 12 groups (quick) / all 93 singletons "
+        "one case per (selection, file set): selections = a random partition of the catalogue into 8 groups (quick) / all 93 singletons "
         "(thorough) + complements of singletons + random subsets + --ignore runs; each selection's report is compared line by line, in "
         "order, with the --enable-all report filtered to the selection; non-trivial = the filtered full report is non-empty; distinct = "
         "distinct selection"
@@ -77,20 +77,33 @@ def run(ctx) -> None:
             name = f"nest_{k // 60}.py"
             (d / name).write_text(text)
             names.append(name)
+        # long operator / call / attribute chains with a diagnosable piece at the deep end and after the chain, well BELOW the
+        # depth at which the traversal runs into the recursion limit (that regime — from about 250 terms on — is the recorded C04
+        # finding `traversal abandoned at the recursion limit`; how far a cut traversal gets depends on how many wrappers the
+        # selection installs, so it is selection-dependent by construction and not asked for here)
+        chain_lines = ["from typing import Any", "def ident(v: Any) -> Any: return v", "names: list[str] = []"]
+        for terms in (60, 120, 170, 220):
+            chain_lines.append(f"t{terms} = int(0)" + " + 1" * terms)
+            chain_lines.append(f"u{terms} = list(names)" + "[:]" * 3 + "".join(f" + [{k}]" for k in range(terms)))
+            chain_lines.append(f"v{terms} = bool(True)")
+        for depth in (40, 90):
+            chain_lines.append(f"w{depth} = " + "ident(" * depth + "int(0)" + ")" * depth)
+        (d / "chain.py").write_text("\n".join(chain_lines) + "\n")
+        names.append("chain.py")
         (d / "pyproject.toml").write_text("")
         # refurb's own data directory holds files that need each other (module pairs); lint them all together
         shuffled = codes[:]
         rng.shuffle(shuffled)
         selections: list[tuple[str, list[str], list[str]]] = []  # (label, argv, selected codes)
         if ctx.quick:
-            ngroups = 12
+            ngroups = 8
             for g in range(ngroups):
                 grp = shuffled[g::ngroups]
                 selections.append((f"group{g}", ["--disable-all", "--enable", ",".join(grp)], grp))
-            singles = rng.sample(codes, 5)
-            comps = rng.sample(codes, 4)
-            rand = 3
-            ign = rng.sample(codes, 3)
+            singles = rng.sample(codes, 3)
+            comps = rng.sample(codes, 3)
+            rand = 2
+            ign = rng.sample(codes, 2)
         else:
             singles = codes
             comps = codes[::3]
@@ -99,6 +112,7 @@ def run(ctx) -> None:
             for g in range(12):
                 grp = shuffled[g::12]
                 selections.append((f"group{g}", ["--disable-all", "--enable", ",".join(grp)], grp))
+        directed: dict[str, list[str]] = {}  # label -> the files that selection is run on (default: all)
         # directed: checks whose module looks at anything outside itself (reads the shared errors list, writes to nodes, imports
         # another module's mutable state — the Locality table of the translator) always get a singleton and a complement run
         try:
@@ -108,11 +122,14 @@ def run(ctx) -> None:
             for r in extract_c10.locality_rows():
                 if r.get("errors_other") or r.get("node_writes") or r.get("mutable_imports"):
                     sus |= {c for c in codes if any(f"{x['prefix']}{x['code']}" == c and x["module"] == r["module"] for x in rows)}
+            small = [n for n in names if n.startswith(("c10_", "nest_", "chain")) or n == "chain.py"]
             for c in sorted(sus):
                 if c not in singles:
-                    singles = [*singles, c]
+                    directed[f"single:{c}@small"] = small
+                    selections.append((f"single:{c}@small", ["--disable-all", "--enable", c], [c]))
                 if c not in comps:
-                    comps = [*comps, c]
+                    directed[f"complement:{c}@small"] = small
+                    selections.append((f"complement:{c}@small", ["--enable-all", "--disable", c], [x for x in codes if x != c]))
             res.bump("directed_singletons", len(sus))
         except Exception as e:  # noqa: BLE001
             res.notes.append(f"directed singleton selection skipped: {type(e).__name__}: {e}")
@@ -130,7 +147,7 @@ def run(ctx) -> None:
 
         with ThreadPoolExecutor(16) as ex:
             fut_full = ex.submit(lint, d, names, ["--enable-all"])
-            futs = [ex.submit(lint, d, names, argv) for _, argv, _ in selections]
+            futs = [ex.submit(lint, d, directed.get(label, names), argv) for label, argv, _ in selections]
             full = fut_full.result()
             results = [f.result() for f in futs]
     rc, full_diags, other, err = full
@@ -144,7 +161,8 @@ def run(ctx) -> None:
     group_reports: list[list[dict[str, Any]]] = []
     for (label, argv, sel), (rc_s, diags, other_s, err_s) in zip(selections, results):
         selset = set(sel)
-        want = [l for l in full_lines if l[3] in selset]
+        on_files = set(directed[label]) if label in directed else None
+        want = [l for l in full_lines if l[3] in selset and (on_files is None or l[0] in on_files)]
         got = [(x["file"], x["line"], x["col"], f"{x['prefix']}{x['code']}", x["msg"]) for x in diags]
         res.case(("selection", label, tuple(sorted(sel))), nontrivial=bool(want))
         res.bump("selection:" + label.split(":")[0].rstrip("0123456789"))
